@@ -73,6 +73,10 @@ pub struct FileSpec {
     pub enc: Enc,
     /// stored bytes that replace the encoded declarations (corruption, binary files)
     pub raw: Option<Vec<u8>>,
+    /// the content lives outside ws/ (in store/, under the same relative name) and ws/<name> is a
+    /// symbolic link to it: the file is in the directory only by way of the link
+    #[serde(default)]
+    pub via_symlink: bool,
 }
 
 #[derive(Clone, Debug, Serialize, Deserialize, PartialEq)]
@@ -261,10 +265,14 @@ impl Obs {
 
 /// The name of a file relative to the ws/ directory of the simulated disk ("a.st", "d1/a.st").
 pub fn ws_relative(file: &str) -> &str {
-    match file.find("/ws/") {
-        Some(p) => &file[p + 4..],
-        None => file.rsplit('/').next().unwrap_or(file),
+    if let Some(p) = file.find("/ws/") {
+        return &file[p + 4..];
     }
+    // a file that is in ws/ by way of a symbolic link is named by its target once canonicalised
+    if let Some(p) = file.find("/store/") {
+        return &file[p + 7..];
+    }
+    file.rsplit('/').next().unwrap_or(file)
 }
 
 pub fn file_text(world: &World, f: &FileSpec) -> String {
@@ -348,7 +356,16 @@ pub fn lay_out(world: &World, v: &Variant) {
         if let Some(parent) = path.parent() {
             let _ = std::fs::create_dir_all(parent);
         }
-        std::fs::write(path, file_bytes(world, f)).expect("write file");
+        if f.via_symlink {
+            let target = r.join("store").join(&f.name);
+            if let Some(parent) = target.parent() {
+                let _ = std::fs::create_dir_all(parent);
+            }
+            std::fs::write(&target, file_bytes(world, f)).expect("write file");
+            std::os::unix::fs::symlink(&target, &path).expect("link file");
+        } else {
+            std::fs::write(path, file_bytes(world, f)).expect("write file");
+        }
     }
     for e in &v.extras {
         match e {
